@@ -805,7 +805,7 @@ def makeringlatticeCIJ(n, k, seed=None):
         count += 1
         dCIJ = np.triu(CIJ1, seq[count - 1]) - np.triu(CIJ1, seq[count - 1] + 1)
         dCIJ2 = np.triu(CIJ1, seq2[count - 1]) - np.triu(CIJ1, seq2[count - 1] + 1)
-        dCIJ = dCIJ + dCIJ.T + dCIJ2 + dCIJ2.T
+        dCIJ = np.minimum(dCIJ + dCIJ.T + dCIJ2 + dCIJ2.T, 1)
         CIJ += dCIJ
         kk = int(np.sum(CIJ))
 
